@@ -1142,6 +1142,44 @@ def _tag_conversion(term):
     return None, False
 
 
+PROBE_TRUE_VI = {"std::option::Option::<T>::is_some": ("std::option::Option", 1), "std::option::Option::<T>::is_none": ("std::option::Option", 0),
+                 "std::result::Result::<T, E>::is_ok": ("std::result::Result", 0), "std::result::Result::<T, E>::is_err": ("std::result::Result", 1)}
+
+
+def probe_switches(body):
+    """{switch block: (probed local x, variant index for which the probe is true)} for `if x.is_some()` / `is_none` / `is_ok` / `is_err`
+    on a whole local: the call's only successor is the switch on its result, and nothing in between assigns x"""
+    r = getattr(body, "_probes", None)
+    if r is not None:
+        return r
+    r = {}
+    for bb, blk in enumerate(body.blocks):
+        t = blk["term"]
+        if blk["cleanup"] or t["k"] != "call" or t.get("t") is None or callee_name(t) not in PROBE_TRUE_VI or not t["args"]:
+            continue
+        sb = t["t"]
+        st_ = body.blocks[sb]["term"]
+        if st_["k"] != "switch" or st_["discr"].get("k") not in ("copy", "move") or st_["discr"]["pl"]["p"] or \
+                st_["discr"]["pl"]["l"] != t["dest"]["l"] or t["dest"]["p"]:
+            continue
+        if len([1 for pb in body.normal_blocks() for (s_, lab) in body.raw_succs(pb) if s_ == sb]) != 1:
+            continue
+        a = op_place(t["args"][0])
+        if a is None or a["p"]:
+            continue
+        ds = body.defs().get(a["l"], [])
+        if len(ds) != 1 or ds[0][0] != "assign" or ds[0][3]["rv"]["k"] != "ref" or ds[0][3]["rv"]["pl"]["p"]:
+            continue
+        x = ds[0][3]["rv"]["pl"]["l"]
+        if ds[0][1] != bb:
+            continue       # the borrow is taken in the probing block itself
+        if any(st["k"] == "assign" and st["lhs"]["l"] == x for st in body.blocks[sb]["stmts"]):
+            continue
+        r[sb] = (x, PROBE_TRUE_VI[callee_name(t)][1])
+    body._probes = r
+    return r
+
+
 def tracked_tags(body):
     """locals whose *variant* is statically known along a path: every whole-local definition is an Option/Result/ControlFlow aggregate,
     a move/copy of such a local, or Try::branch of one; plus the integer locals holding `discriminant(<tracked>)`.
@@ -1163,6 +1201,7 @@ def tracked_tags(body):
     for bb, si, st in body.stmts(live_only=False):
         if st["k"] == "assign" and st["rv"]["k"] == "discriminant" and not st["rv"]["pl"]["p"]:
             matched.add(st["rv"]["pl"]["l"])
+    matched |= {x for (x, vi) in probe_switches(body).values()}
     for l in list(cand):
         ds = body.defs().get(l, [])
         if not ds or not any(r[0] in ("assign", "call") for r in ds):
@@ -1227,6 +1266,7 @@ def _tracked_liveness(body, S):
     if getattr(body, "_tlive", None) is not None:
         return body._tlive
     tracked = set(S.idx) | set(S.tidx) | set(S.didx)
+    probes = probe_switches(body)
     nb = len(body.blocks)
     gen = [set() for _ in range(nb)]
     kill = [set() for _ in range(nb)]
@@ -1243,6 +1283,8 @@ def _tracked_liveness(body, S):
         t = blk["term"]
         if t["k"] == "switch":
             reads_op(t["discr"], g)
+            if bb in probes and probes[bb][0] in tracked:
+                g.add(probes[bb][0])
         elif t["k"] == "drop":
             if t["pl"]["l"] in tracked:
                 g.add(t["pl"]["l"])      # which variant is being dropped matters to the error-discipline rules
@@ -1346,6 +1388,7 @@ def explore(body, cut=None, mark_edges=None, start_env=None, start_blocks=None, 
     marked = set()
     budget = 400000
     dead_at = _tracked_liveness(body, S)
+    probes = probe_switches(body)
 
     def op_bool(op, e):
         """constant truth value of an operand, if known"""
@@ -1467,6 +1510,13 @@ def explore(body, cut=None, mark_edges=None, start_env=None, start_blocks=None, 
                     known = None if known is None else int(known)
                 elif dl in didx:
                     known = e[didx[dl]]
+        plearn = None
+        if t["k"] == "switch" and known is None and bb in probes and probes[bb][0] in tidx:
+            px, ptrue = probes[bb]
+            if e[tidx[px]] is not None:
+                known = int(e[tidx[px]] == ptrue)
+            else:
+                plearn = (px, ptrue)
         env2 = tuple(e)
         learn = None
         if t["k"] == "switch" and known is None:
@@ -1485,6 +1535,12 @@ def explore(body, cut=None, mark_edges=None, start_env=None, start_blocks=None, 
                 if lab[0] == "otherwise" and val in lab[1]:
                     continue
             env3 = env2
+            if plearn is not None and lab is not None:
+                truth = (lab[1] != 0) if lab[0] == "val" else (False if lab[1] == frozenset({1}) else True if 0 in lab[1] else None)
+                if truth is not None:
+                    e3 = list(env2)
+                    e3[tidx[plearn[0]]] = plearn[1] if truth else 1 - plearn[1]
+                    env3 = tuple(e3)
             if learn is not None and lab is not None:
                 # taking this edge tells which variant the scrutinee holds (until it is reassigned)
                 src, all_discr = learn
